@@ -1,7 +1,173 @@
+/-
+  C11 driver handler.  Wire form of an ordered JSON tree (Lean's `Json.obj` is a sorted map, so
+  objects travel as association lists):
+    null | true/false | integer | "string" | [ … ] | {"f":[mant,exp]} | {"o":[[key,value],…]}
+  Input  {"kind": …, "json": wire, "ctx": {...}, …}
+  Output {"outcome": "reuse"|"discard"|"refuse:<err>", "json": wire of to_json(regenerated),
+          "stable": to_json(regenerated) == json, "valid": class invariant of the regenerated object,
+          "may_reuse": the spec's verdict on stored-vs-current settings, …}
+-/
 import ASV.Drv.J
+import ASV.Spec.Results
 namespace ASV.Drv.C11
-open Lean ASV ASV.Drv
+open Lean ASV ASV.Drv ASV.Results
 
-def handle (_j : Json) : R Json := throw "C11: no model yet"
+partial def wireToJ (j : Json) : R J :=
+  match j with
+  | .null => pure .null
+  | .bool b => pure (.bool b)
+  | .str s => pure (.str s)
+  | .num _ => do return .int (← asInt j)
+  | .arr a => do return .arr (← a.toList.mapM wireToJ)
+  | .obj _ =>
+    match j.getObjVal? "f", j.getObjVal? "o" with
+    | .ok f, _ => do return .num ⟨← asInt (← idx f 0), ← asInt (← idx f 1)⟩
+    | _, .ok o => do
+      let kv ← (← asArr o).mapM fun p => do return ((← asStr (← idx p 0)), (← wireToJ (← idx p 1)))
+      return .obj kv
+    | _, _ => throw "bad wire object"
+
+partial def jToWire : J → Json
+  | .null => .null
+  | .bool b => .bool b
+  | .int i => toJson i
+  | .num d => jObj [("f", jArr [toJson d.mant, toJson d.exp])]
+  | .str s => .str s
+  | .arr l => jArr (l.map jToWire)
+  | .obj kv => jObj [("o", jArr (kv.map fun p => jArr [.str p.1, jToWire p.2]))]
+
+def jEq (a b : J) : Bool := (jToWire a).compress == (jToWire b).compress
+
+def decOf (j : Json) : R Dec := do return ⟨← asInt (← idx j 0), ← asInt (← idx j 1)⟩
+def decJ (d : Dec) : Json := jArr [toJson d.mant, toJson d.exp]
+
+def errName : Err → String
+  | .key => "KeyError" | .value => "value-error" | .assertion => "assertion"
+  | .type => "TypeError" | .runtime => "RuntimeError"
+
+def outcomeName {α} : Outcome α → String
+  | .reuse _ => "reuse"
+  | .discard => "discard"
+  | .refuse e => "refuse:" ++ errName e
+
+def ctxOf (j : Json) : R Ctx := do
+  let c := fldD j "ctx" (jObj [])
+  let rid := (strF c "record_id").toOption.getD ""
+  let names ← match c.getObjVal? "cds_names" with
+    | .ok a => listOf asStr a
+    | .error _ => pure []
+  let origin := match c.getObjVal? "origin" with
+    | .ok (.num n) => some n.mantissa
+    | _ => none
+  return ⟨rid, names, origin⟩
+
+/-- common reply for `X.fromJson`-style kinds -/
+def reply {α} (input : J) (out : Outcome α) (enc : α → J) (valid : α → Bool) (extra : List (String × Json) := []) : Json :=
+  match out with
+  | .reuse y =>
+    jObj ([("outcome", .str "reuse"), ("json", jToWire (enc y)), ("stable", toJson (jEq (enc y) input)),
+           ("valid", toJson (valid y))] ++ extra)
+  | o => jObj ([("outcome", .str (outcomeName o))] ++ extra)
+
+def locJ (l : Loc) : Json := locToJson l
+
+def handle (j : Json) : R Json := do
+  let kind ← strF j "kind"
+  let ctx ← ctxOf j
+  let input ← wireToJ (fldD j "json" .null)
+  match kind with
+  | "hmmresult" =>
+    return reply input (HMMResult.fromJson input) HMMResult.toJson HMMResult.valid
+  | "nrpspks" =>
+    let names ← listOf asStr (fldD j "classifiable" (jArr []))
+    let rules : ModRules := ⟨fun n => names.contains n, fun _ _ => true⟩
+    return reply input (NrpsPks.fromJson rules ctx input) NrpsPks.toJson (NrpsPks.valid rules ctx)
+      [("may_reuse", toJson (Spec.nrpsPksMayReuse ctx input))]
+  | "hmmdet" =>
+    let o := fldD j "opts" (jObj [])
+    let opts : HmmOpts := ⟨(strF o "strictness").toOption.getD "relaxed",
+                           ← listOf asStr (fldD o "rule_names" (jArr [])),
+                           boolFD o "fungi" false,
+                           ← decOf (fldD o "cutoff" (jArr [toJson (1 : Int), toJson (0 : Int)])),
+                           ← decOf (fldD o "neighbourhood" (jArr [toJson (1 : Int), toJson (0 : Int)]))⟩
+    let out := HmmDet.regenerate ctx opts input
+    let protos := match out with
+      | .reuse y => y.rules.protoclusters.map fun p =>
+          jObj [("loc", locJ p.loc), ("core", locJ p.core), ("product", .str p.product)]
+      | _ => []
+    return reply input out HmmDet.toJson (HmmDet.valid ctx)
+      [("may_reuse", toJson (Spec.hmmDetMayReuse ctx opts input)), ("protos", jArr protos)]
+  | "ruleres" =>
+    return reply input (RuleRes.fromJson ctx input) RuleRes.toJson (RuleRes.valid ctx)
+  | "sideload" =>
+    let out := Sideloaded.regenerate ctx input
+    let areas := match out with
+      | .reuse y =>
+        [("subregions", jArr (y.predictedSubregions.map fun s => jArr [locJ s.1, .str s.2.1, .str s.2.2])),
+         ("protoclusters", jArr (y.predictedProtoclusters.map fun p =>
+            jArr [locJ p.1, locJ p.2.1, .str p.2.2.1, .str p.2.2.2]))]
+      | _ => []
+    return reply input out Sideloaded.toJson (Sideloaded.valid ctx)
+      ([("may_reuse", toJson (Spec.sideloadMayReuse ctx input))] ++ areas)
+  | "hmmer" =>
+    let maxE ← decOf (← fld j "max_evalue")
+    let minS ← decOf (← fld j "min_score")
+    let op := (strF j "op").toOption.getD "regenerate"
+    let out := if op == "refilter" then
+        (match HmmerRes.fromJson ctx input with
+         | .reuse x => x.refilter maxE minS
+         | o => o)
+      else HmmerRes.regenerate ctx maxE minS input
+    -- reference: the stored hits that satisfy the current thresholds
+    let reference := match HmmerRes.fromJson ctx input with
+      | .reuse x => jArr ((Spec.hmmerReference x.hits maxE minS).map fun h => jToWire h.toJson)
+      | _ => .null
+    return reply input out HmmerRes.toJson (HmmerRes.valid ctx)
+      [("may_reuse", toJson (Spec.hmmerMayReuse ctx maxE minS input)), ("reference", reference)]
+  | "tta" =>
+    -- a history: the stored JSON is regenerated under each threshold in turn; after a discard the
+    -- module runs afresh (`detect` on the record's codons)
+    let gc ← decOf (← fld j "gc")
+    let all ← listOf locOfJson (← fld j "all_codons")
+    let steps ← listOf (fun s => do
+      return ((← decOf (← fld s "threshold")), (strF s "record_id").toOption.getD ctx.recordId)) (← fld j "steps")
+    let mut cur := input
+    let mut outs : List Json := []
+    for (opt, rid) in steps do
+      let out := TTA.regenerate opt cur
+      let (final, ran) := match out with
+        | .reuse x => if x.keptByRun rid then (some x, false) else (some (TTA.detect rid gc opt all), true)
+        | .discard => (some (TTA.detect rid gc opt all), true)
+        | .refuse _ => (none, false)
+      match final with
+      | some x =>
+        let refOk := x.codons == Spec.ttaReference gc opt all
+        outs := outs ++ [jObj [("outcome", .str (outcomeName out)), ("ran", toJson ran),
+          ("json", jToWire x.toJson), ("reference_ok", toJson refOk), ("may_reuse", toJson (Spec.ttaMayReuse cur)),
+          ("features", jArr (x.features.map locJ))]]
+        cur := x.toJson
+      | none =>
+        outs := outs ++ [jObj [("outcome", .str (outcomeName out))]]
+    return jObj [("steps", jArr outs)]
+  | "runmod" =>
+    let hasPrev ← boolF j "has_prev"
+    let regenKind ← strF j "regen"       -- "reuse" | "discard" | "refuse"
+    let inAll ← boolF j "in_all"
+    let enabled ← boolF j "enabled"
+    let regen : J → Outcome String := fun _ =>
+      if regenKind == "reuse" then .reuse "regenerated" else if regenKind == "discard" then .discard else .refuse .value
+    let run : Option String → String := fun r => match r with | some x => "ran(" ++ x ++ ")" | none => "ran(None)"
+    let prev := if hasPrev then some (J.obj [("x", .int 1)]) else none
+    let out := runModule prev regen inAll enabled run
+    match out with
+    | .reuse t =>
+      let willRun := inAll && enabled
+      let regenerated := if hasPrev && regenKind == "reuse" then some "regenerated" else none
+      return jObj [("outcome", .str "ok"),
+        ("stored", match t.stored with | some s => .str s | none => .null),
+        ("ran_with", match t.ranWith with | some (some s) => .str s | some none => .str "None" | none => .null),
+        ("spec_stored", match Spec.runModuleStored regenerated willRun run with | some s => .str s | none => .null)]
+    | o => return jObj [("outcome", .str (outcomeName o))]
+  | k => throw s!"C11: unknown kind {k}"
 
 end ASV.Drv.C11
